@@ -387,7 +387,10 @@ class Parser:
         if tok[0] == "str" and tok[1].startswith('b"'):
             self.next()
             return ("bytes", bytes_value(tok[1]))
-        if tok[0] in ("str", "chr"):
+        if tok[0] == "chr":
+            self.next()
+            return ("charlit", tok[1])
+        if tok[0] == "str":
             self.next()
             return ("strlit", tok[1])
         if self.at("true") or self.at("false"):
@@ -490,6 +493,11 @@ class Parser:
                 start = self.i + 1
                 self.skip_group(o, c)
                 inner = self.t[start:self.i - 1]
+                if name == "write":
+                    # write!(target, "format string with inline {name} / {name:0W} arguments")
+                    if len(inner) != 3 or inner[0][0] != "id" or inner[1] != ("op", ",") or inner[2][0] != "str":
+                        raise TransError("write! with positional arguments")
+                    return ("fmtwrite", ("path", [inner[0][1]]), inner[2][1][1:-1])
                 return self.expand_macro(name, inner)
             if self.at("{") and not nostruct and path[-1][0].isupper():
                 self.next()
@@ -573,6 +581,9 @@ class Parser:
         stmts = []
         tail = None
         while not self.at("}"):
+            if self.at("#") and self.peek(1)[1] == "[" and self.peek(2)[1] in ("cfg", "cfg_attr"):
+                # the meaning of the body would depend on the feature set: not in the subset
+                raise TransError("cfg-gated statement inside a function body")
             self.skip_attrs()
             if self.at(";"):
                 self.next()
@@ -983,6 +994,8 @@ def lean_ty(t):
         return "Int"
     if k == "bool":
         return "Bool"
+    if k == "char":
+        return "Char"
     if k == "unit":
         return "Unit"
     if k == "ref":
@@ -1098,6 +1111,9 @@ class Normaliser:
             if e[0] == "mcall" and e[2] == "push" and self.out and e[1] == ("path", [self.out]):
                 lets, v = self.hoist(e[3][0], top=False)
                 return lets + [("assign", e[1], "=", ("pushed", e[1], v))]
+            if e[0] == "try" and e[1][0] == "fmtwrite":
+                # core::fmt is modelled: writing to the formatter appends and cannot fail
+                return [("assign", e[1][1], "=", ("fmtappend", e[1][1], e[1][2]))]
             if e[0] == "try":
                 lets, inner = self.hoist(e[1], top=False)
                 return lets + [("let", ("pwild",), None, ("try", inner))]
@@ -1358,6 +1374,30 @@ class Fn:
             return (self.value_block(e, env), self.ty_of(e, env))
         if k == "unreachable":
             return ("default", None)
+        if k == "charlit":
+            return (e[1], ("char",))
+        if k == "fmtappend":
+            l, t = self.ex(e[1], env)
+            pieces = []
+            for m in re.finditer(r"\{([a-z_][a-z_0-9]*)(?::0(\d+))?\}|([^{}]+)", e[2]):
+                if m.group(3) is not None:
+                    pieces.append("[" + ", ".join("'%s'" % c for c in m.group(3)) + "]")
+                    continue
+                v, w = m.group(1), m.group(2)
+                vt = strip_ref(env.get(v)) if env.get(v) else None
+                if v not in env:
+                    raise TransError("format argument %s" % v)
+                if vt and vt[0] == "char":
+                    if w:
+                        raise TransError("padded char")
+                    pieces.append("[%s]" % vname(v))
+                elif w:
+                    pieces.append("(TzVerif.Model.pad %s %s)" % (w, vname(v)))
+                else:
+                    pieces.append("(TzVerif.Model.showInt %s)" % vname(v))
+            if "".join(m.group(0) for m in re.finditer(r"\{([a-z_][a-z_0-9]*)(?::0(\d+))?\}|([^{}]+)", e[2])) != e[2]:
+                raise TransError("format string %r" % e[2])
+            return ("(%s ++ %s)" % (l, " ++ ".join(pieces)), t)
         if k == "pushed":
             l, t = self.ex(e[1], env)
             v, _ = self.ex(e[2], env)
@@ -2123,13 +2163,18 @@ class Fn:
             return self.emit_arms(kind, scrut, out)
         # statement position
         blocks = [(head, self.stmt_block(body), env_arm) for head, body, env_arm in arms]
-        for _, blk, _ in blocks:
-            self.check_no_shadow(blk, env)
+        if any(self.may_leave(blk) for _, blk, _ in blocks):
+            # what follows is emitted inside the arms: an inner `let` must not shadow an outer name
+            for _, blk, _ in blocks:
+                self.check_no_shadow(blk, env)
         if not any(self.may_leave(blk) for _, blk, _ in blocks):
             # pure state update: tuple of the assigned outer variables
             names = []
             for _, blk, _ in blocks:
+                shadowed = [n for st in blk[1] if st[0] == "let" for n in self.pat_names(st[1]) if n in env]
                 for n in self.assigned(blk, []):
+                    if n in shadowed:
+                        raise TransError("assignment to a shadowed variable %s in %s" % (n, self.qname))
                     if n in env and n not in names:
                         names.append(n)
             if not names:
@@ -2474,9 +2519,10 @@ class Translator:
                     f.ret = ("tuple", [f.ret] + sts)
             if f.out:
                 # `&mut impl DateTimeList`: the pushed sequence, threaded through and returned
-                lt = ("slice", ("named", "FoundDateTimeKind"))
+                lt = ("slice", ("char",)) if cfg.get("out_kind") == "fmt" else ("slice", ("named", "FoundDateTimeKind"))
                 ps = [(n, lt if n == f.out else t) for n, t in ps]
-                f.ret = ("result", lt, f.ret[2] if f.ret[0] == "result" else ("named", "TzError"))
+                f.ret = ("result", lt, f.ret[2] if f.ret[0] == "result" else (("unit",) if cfg.get("out_kind") == "fmt" else ("named", "TzError")))
+                self.inout[q] = []
             self.sigs[q] = (ps, f.ret)
         out = []
         for q in list(self.order):
@@ -2545,6 +2591,9 @@ CONFIG = {
         }),
         ("src/datetime/find.rs", {
             "find_date_time": {"out_param": "found_date_time_list"},
+        }),
+        ("src/datetime/mod.rs", {
+            "format_date_time": {"out_param": "f", "out_kind": "fmt"},
         }),
         ("src/parse/utils.rs", {
             "read_exact": {}, "read_tag": {}, "read_optional_tag": {}, "read_while": {}, "read_until": {},
